@@ -111,6 +111,48 @@ GFF = {
 }
 
 # ----------------------------------------------------------------------------- map.py
+GRP = 'Map.get_rect_pixels'
+
+
+def _rows_table(name, fn, target, k):
+    """The k-th `target = <display>` of fn evaluated with nothing but bytearray in scope (a list of
+    bytearrays, e.g. `[bytearray(b'\\x00' * 8)] * 8`), dumped as list (list Z); anything else fails closed."""
+    c = [n for n in ast.walk(fn) if isinstance(n, ast.Assign) and len(n.targets) == 1
+         and isinstance(n.targets[0], ast.Name) and n.targets[0].id == target]
+    c.sort(key=lambda n: (n.lineno, n.col_offset))
+    try:
+        v = eval(compile(ast.Expression(c[k].value), '<kernel>', 'eval'), {'__builtins__': {}, 'bytearray': bytearray}, {})
+        if not isinstance(v, list) or not all(isinstance(r, (bytes, bytearray)) for r in v):
+            raise ValueError
+        return 'Definition %s : list (list Z) := [%s].\n' % (
+            name, '; '.join('[%s]' % '; '.join(str(b) for b in r) for r in v))
+    except Exception:
+        return 'Definition %s : list (list Z) := untranslatable__%s.\n' % (name, name)
+
+
+def map_extra(mod, tree, src):
+    import inspect
+    import py2gallina as P
+    fn = P.find_function(tree, GRP)
+    # the call self._gfx.get_sprite(id) relies on the defaults of Gfx.get_sprite: one positional argument, no keywords
+    calls = [n for n in ast.walk(fn) if isinstance(n, ast.Call) and isinstance(n.func, ast.Attribute)
+             and n.func.attr == 'get_sprite']
+    one_arg = len(calls) == 1 and len(calls[0].args) == 1 and not calls[0].keywords
+    from pico8.gfx.gfx import Gfx
+    sig = inspect.signature(Gfx.get_sprite).parameters
+    dw, dh = sig['tile_width'].default, sig['tile_height'].default
+    ok = one_arg and isinstance(dw, int) and isinstance(dh, int)
+    return ('Definition map_hex_line_bytes : Z := %d.\n' % mod.Map.HEX_LINE_LENGTH_BYTES +
+            'Definition map_empty_len : Z := %d.\n' % len(mod.Map.empty()._data) +
+            '(* Map.get_rect_pixels: pixel_row = [bytearray() ...]; sprite = [bytearray(b\'\\x00\' * 8)] * 8 *)\n' +
+            _rows_table('map_grp_pixel_row_init', fn, 'pixel_row', 0) +
+            _rows_table('map_grp_empty_sprite', fn, 'sprite', 0) +
+            '(* Map.get_rect_pixels calls get_sprite(id): the defaults tile_width, tile_height of Gfx.get_sprite *)\n' +
+            ('Definition map_grp_sprite_w : Z := %d.\nDefinition map_grp_sprite_h : Z := %d.\n' % (dw, dh) if ok else
+             'Definition map_grp_sprite_w : Z := untranslatable__get_sprite_call.\n'
+             'Definition map_grp_sprite_h : Z := untranslatable__get_sprite_call.\n'))
+
+
 MAP = {
     'file': 'K_map',
     'kernels': [
@@ -134,10 +176,21 @@ MAP = {
         K('map_srt_skip', 'Map.set_rect_tiles', ('if', 0), ['tile_y', 'y', 'tile_x', 'x'], 'bool'),
         K('map_srt_cx', 'Map.set_rect_tiles', ('call_arg', 'set_cell', 0, 0), ['tile_x', 'x']),
         K('map_srt_cy', 'Map.set_rect_tiles', ('call_arg', 'set_cell', 0, 1), ['tile_y', 'y']),
+        # get_rect_pixels: the five asserts, the empty-tile test, the sprite id handed to get_sprite, the two
+        # `for i in range(0, 8)` loops (the display of 8 row buffers and the empty sprite are dumped by map_extra)
+        K('map_grp_assert_g', GRP, ('assert', 0), ['self_gfx_is_none:bool'], 'bool'),
+        K('map_grp_assert_x', GRP, ('assert', 1), ['x'], 'bool'),
+        K('map_grp_assert_w', GRP, ('assert', 2), ['width'], 'bool'),
+        K('map_grp_assert_h', GRP, ('assert', 3), ['height'], 'bool'),
+        K('map_grp_assert_yh', GRP, ('assert', 4), ['y', 'height'], 'bool'),
+        K('map_grp_empty', GRP, ('if', 0), ['id'], 'bool'),
+        K('map_grp_sprite_id', GRP, ('call_arg', 'get_sprite', 0, 0), ['id']),
+        K('map_grp_ext_lo', GRP, ('call_arg', 'range', 0, 0), []),
+        K('map_grp_ext_hi', GRP, ('call_arg', 'range', 0, 1), []),
+        K('map_grp_out_lo', GRP, ('call_arg', 'range', 1, 0), []),
+        K('map_grp_out_hi', GRP, ('call_arg', 'range', 1, 1), []),
     ],
-    'extra': lambda mod, tree, src: (
-        'Definition map_hex_line_bytes : Z := %d.\n' % mod.Map.HEX_LINE_LENGTH_BYTES +
-        'Definition map_empty_len : Z := %d.\n' % len(mod.Map.empty()._data)),
+    'extra': map_extra,
 }
 
 # ----------------------------------------------------------------------------- sfx.py
